@@ -729,7 +729,7 @@ Proof.
     exact (mok_get _ _ _ _ _ _ _ _ H Hx).
   - destruct (get_m s m) as [x|] eqn:Hx; auto.
     pose proof (mok_get _ _ _ _ _ _ _ _ H Hx) as Hm.
-    destruct (m_bad x).
+    destruct (nth (m_idx x) (m_bad x) false).
     + apply IH. apply QA_put_m; auto.
     + unfold try_start. destruct (closed s).
       * apply QA_finish_m; auto.
